@@ -37,6 +37,11 @@ type Tmpl struct {
 	OptionalMode bool   // optional FromCompositeFieldPath patch spec.mode -> spec.mode
 	Readiness    string // "none" | "phase" | "default"
 	Enabled      bool
+	// connection details the template extracts for the XR (DrawParams.PTConn)
+	ConnValue     string // FromValue: key "user" (two templates may both set it: the later one wins)
+	ConnSecretKey string // FromConnectionSecretKey "password": "named" (key "pass") | "unnamed" (key "password") | ""
+	ConnField     string // FromFieldPath: key "extra" from this path of the composed resource ("" = none)
+	ConnSecret    bool   // the composed resource asks for a connection secret of its own
 }
 
 // XRSpec is the user-owned part of an XR.
@@ -75,7 +80,11 @@ type DrawParams struct {
 	Strict         bool // include resources whose kind rejects applies without spec.mode
 	Requirements   bool
 	Conn           bool
-	MaxXR          int
+	// PTConn: with Conn, some workloads are P&T compositions whose templates
+	// extract connection details (fixed values, keys of the composed resource's
+	// own connection secret, field paths incl. missing ones).
+	PTConn bool
+	MaxXR  int
 	// Anonymous: now and then P&T compositions start with anonymous templates
 	// and are migrated to named ones later.
 	Anonymous bool
@@ -108,6 +117,9 @@ func Draw(t *sim.Tape, p DrawParams) *Workload {
 	}
 	if p.ForceResources {
 		w.Pipeline = false
+	}
+	if p.PTConn {
+		w.Pipeline = t.Next(5) < 3
 	}
 	nSteps := 1 + t.Next(3)
 	if p.Contract {
@@ -218,6 +230,14 @@ func Draw(t *sim.Tape, p DrawParams) *Workload {
 		if p.Readiness {
 			tm.Readiness = []string{"none", "phase", "default", "cond+phase", "phase+cond"}[t.Next(5)]
 		}
+		if p.PTConn && !w.Pipeline {
+			if t.Next(2) == 0 {
+				tm.ConnValue = "tv-" + n
+			}
+			tm.ConnSecretKey = []string{"", "named", "named", "unnamed"}[t.Next(4)]
+			tm.ConnSecret = tm.ConnSecretKey != "" || t.Next(3) == 0
+			tm.ConnField = []string{"", "spec.tag", "status.phase", "spec.nothing.here"}[t.Next(4)]
+		}
 		w.Templates = append(w.Templates, tm)
 	}
 	if p.Strict {
@@ -294,6 +314,9 @@ func (wl *Workload) Composition() *v1.Composition {
 			continue
 		}
 		base := map[string]any{"apiVersion": "things.example.org/v1", "kind": tm.Kind, "spec": map[string]any{"tag": tm.Name}}
+		if tm.ConnSecret {
+			base["spec"].(map[string]any)["writeConnectionSecretToRef"] = map[string]any{"namespace": "crossplane-system"}
+		}
 		b, _ := json.Marshal(base)
 		ct := v1.ComposedTemplate{Name: ptr.To(tm.Name), Base: kruntime.RawExtension{Raw: b}}
 		if wl.Anonymous {
@@ -306,6 +329,23 @@ func (wl *Workload) Composition() *v1.Composition {
 		}
 		if tm.OptionalMode {
 			ct.Patches = append(ct.Patches, v1.Patch{Type: v1.PatchTypeFromCompositeFieldPath, FromFieldPath: ptr.To("spec.mode"), ToFieldPath: ptr.To("spec.mode")})
+		}
+		if tm.ConnSecret {
+			// the composed resource publishes a connection secret of its own, named after the XR and the template
+			ct.Patches = append(ct.Patches, v1.Patch{Type: v1.PatchTypeFromCompositeFieldPath, FromFieldPath: ptr.To("metadata.name"), ToFieldPath: ptr.To("spec.writeConnectionSecretToRef.name"),
+				Transforms: []v1.Transform{{Type: v1.TransformTypeString, String: &v1.StringTransform{Type: v1.StringTransformTypeFormat, Format: ptr.To("%s-" + tm.Name + "-sec")}}}})
+		}
+		if tm.ConnValue != "" {
+			ct.ConnectionDetails = append(ct.ConnectionDetails, v1.ConnectionDetail{Name: ptr.To("user"), Value: ptr.To(tm.ConnValue)})
+		}
+		switch tm.ConnSecretKey {
+		case "named":
+			ct.ConnectionDetails = append(ct.ConnectionDetails, v1.ConnectionDetail{Name: ptr.To("pass"), FromConnectionSecretKey: ptr.To("password")})
+		case "unnamed":
+			ct.ConnectionDetails = append(ct.ConnectionDetails, v1.ConnectionDetail{FromConnectionSecretKey: ptr.To("password")})
+		}
+		if tm.ConnField != "" {
+			ct.ConnectionDetails = append(ct.ConnectionDetails, v1.ConnectionDetail{Name: ptr.To("extra"), FromFieldPath: ptr.To(tm.ConnField)})
 		}
 		switch tm.Readiness {
 		case "none":
